@@ -26,6 +26,17 @@ pub fn hash_str(s: &str) -> u64 {
 }
 
 impl Rng {
+    /// (extra blocks, extra seconds) for a world far in the future: heights beyond 2^32, times beyond 2^32 s.
+    /// Decided on a copy of the generator, so the history drawn afterwards is the same as without it.
+    pub fn far_future(&self) -> (u64, u64) {
+        let mut probe = self.clone();
+        match probe.below(14) {
+            0 => ((1u64 << 32) + probe.below(1000), 0),
+            1 => (0, (1u64 << 32) + probe.below(1000)),
+            2 => ((1u64 << 33) + probe.below(1000), (1u64 << 32) + probe.below(1_000_000)),
+            _ => (0, 0),
+        }
+    }
     pub fn new(seed: u64, stream: u64, index: u64) -> Self {
         let mut x = seed
             .wrapping_mul(0xD6E8_FEB8_6659_FD93)
